@@ -81,6 +81,12 @@ claim("C14",
       STATIC_NOTE + "Mutator table for curve.Scalar / RID; freshness by reaching definitions. Not decided: numeric conformance.",
       "DESIGN.md §4 C14")
 
+claim("C08",
+      "zero-constant rule on the refresh paths (fresh unwritten NewScalar, selected by the refresh flag / presence of previous material), must-depend queries (dep.go) from refreshed shares back to previous shares and all received sub-shares, aliasing rule on previous-epoch objects, inventoried peer-constant checks, session binding to the current config",
+      "Decides only the structural half of a histories-quantified property: a refresh deals polynomials with zero constant (so the key cannot move), adds the previous secret/public shares to the freshly dealt ones, checks the peers' constants, binds the session to the current config and never rewrites the previous epoch's objects. That shares numerically change, that mixed epochs fail to reconstruct and that signing afterwards succeeds are value-level and NOT decided.",
+      STATIC_NOTE + "dep.go effect summaries. Not decided: numeric effects of refresh across histories.",
+      "DESIGN.md §4 C08")
+
 for p, why in {
     "C01": "not built yet", "C02": "not built yet", "C03": "not built yet", "C04": "not built yet", "C05": "not built yet",
     "C06": "not built yet", "C07": "not built yet", "C08": "not built yet", "C09": "not built yet", "C10": "not built yet",
